@@ -35,6 +35,7 @@ from .c01 import site_kinds
 from .c02 import _term
 from .c02 import compare_branches
 from .c02 import path_classes
+from .c02 import path_method
 from .c02 import token_const
 from .common import callee_name
 from .common import calls
@@ -447,7 +448,7 @@ def r13_7(ctx: Ctx) -> RuleResult:
     n = 0
     for cls in path_classes(ctx):
         for name in ("evaluate", "evaluate_async"):
-            fn = cls.methods.get(name)
+            fn = path_method(ctx, cls, name)
             if fn is None:
                 continue
             for st in subquery_starts(ctx, cls, fn):
